@@ -140,7 +140,7 @@ UpgradeBad(op, log) ==
 
 \* the converters an operation reads; the properties quantify over consistent (strict) inputs,
 \* so an event whose input was already corrupted (reported when it happened) is not judged again
-InputIdx(op) == CASE op.k \in {"add", "sub", "remap_curie", "remap_uri", "rewire"} -> {op.i}
+InputIdx(op) == CASE op.k \in {"add", "sub", "remap_curie", "remap_uri", "rewire", "discover"} -> {op.i}
                   [] op.k = "chain" -> {op.is[k] : k \in 1..Len(op.is)}
                   [] OTHER -> {}
 InputsOK(pre, op) == \A i \in InputIdx(op) : i \in 1..Len(pre) /\ P_C05_inv(pre[i])
@@ -253,7 +253,8 @@ EventBad(t, l) ==
       \* non-strict construction is specified (overwrite order) but no property speaks about it: its clauses carry
       \* their own name so that they are never attributed to C04
       k == IF ev.op.k = "new" /\ ~ev.op.strict THEN "new_nonstrict" ELSE ev.op.k
-      ok == InputsOK(pre, ev.op)
+      \* discover(converter=...) appends a converter whose content is C19's business: here only the frame is judged
+      ok == InputsOK(pre, ev.op) /\ ev.op.k # "discover"
   IN
   (IF ok /\ ~OutMatch(r.out, ev.out) THEN {<<"out", k>>} ELSE {}) \cup
   (IF ok /\ ~DupsMatch(r.out, ev.out) THEN {<<"dups", k>>} ELSE {}) \cup
